@@ -846,6 +846,12 @@ func (env *specEnv) call(n *ast.CallExpr) (string, types.Type, error) {
 		if ty == nil {
 			return "", nil, fmt.Errorf("typeis: unknown type %q", s)
 		}
+		if id, known := e.ifaceType[e.canon(ts[0])]; known {
+			if id == e.st.typeID(ty) {
+				return "true", tBool, nil
+			}
+			return "false", tBool, nil
+		}
 		return eq(app("i.typ", ts[0]), intLit64(int64(e.st.typeID(ty)))), tBool, nil
 	case "kindis": // kindis(x, "int64"): the dynamic type of interface value x has this underlying kind
 		lit, ok := n.Args[1].(*ast.BasicLit)
@@ -856,6 +862,12 @@ func (env *specEnv) call(n *ast.CallExpr) (string, types.Type, error) {
 		kc, ok := kindNames[s]
 		if !ok {
 			return "", nil, fmt.Errorf("kindis: unknown kind %q", s)
+		}
+		if id, known := e.ifaceType[e.canon(ts[0])]; known {
+			if id%32 == kc {
+				return "true", tBool, nil
+			}
+			return "false", tBool, nil
 		}
 		return and(not(eq(app("i.typ", ts[0]), "0")), eq(app("mod", app("i.typ", ts[0]), "32"), strconv.Itoa(kc))), tBool, nil
 	case "asint":
@@ -949,6 +961,12 @@ func (env *specEnv) call(n *ast.CallExpr) (string, types.Type, error) {
 			sum = wrapTo(types.Typ[kinds[nb]], sum)
 		}
 		return sum, tInt, nil
+	case "at": // at(p, a): the object of p's pointee type stored at address a (for frame clauses over all objects)
+		pt, ok := tys[0].Underlying().(*types.Pointer)
+		if !ok {
+			return "", nil, fmt.Errorf("at(p, a): p must be a pointer")
+		}
+		return app("select", e.get(env.cur, e.memRegion(pt.Elem())), ts[1]), pt.Elem(), nil
 	case "oldtop": // oldtop(): first address not yet allocated in the pre-state
 		if env.pre == nil {
 			return "", nil, fmt.Errorf("oldtop() needs a pre-state")
